@@ -37,6 +37,26 @@ std::set<void *> pnodes;
 std::mutex pn_mu;
 long pn_live = 0;
 bool pn_on = false;
+// list node (allocation address) that holds the vector handed to each guard variable (nullptr = none)
+std::vector<void *> g_list_node;
+
+void *
+node_containing(const void *q)
+{
+  std::lock_guard<std::mutex> g(pn_mu);
+  for (void *p : pnodes) {
+    const auto *b = static_cast<const char *>(p);
+    const auto *c = static_cast<const char *>(q);
+    if (c >= b && c < b + sizeof(::dbgroup::thread::EpochManager::ProtectedNode)) return p;
+  }
+  return nullptr;
+}
+bool
+node_live(void *p)
+{
+  std::lock_guard<std::mutex> g(pn_mu);
+  return pnodes.count(p) != 0;
+}
 }  // namespace
 
 void *
@@ -70,7 +90,13 @@ operator delete(void *p, std::align_val_t) noexcept
       hit = true;
     }
   }
-  if (hit) tok("PF");
+  if (hit) {
+    tok("PF");
+    // a vector handed out to a guard holder lives in this node
+    for (size_t v = 0; v < g_list_node.size(); ++v) {
+      if (g_list_node[v] == p) tok("LFREE" + std::to_string(v));
+    }
+  }
   free(p);
 }
 void
@@ -160,6 +186,7 @@ struct World {
     }
     guards = std::vector<EpochGuard>(sc.nvars);
     lists.assign(sc.nvars, nullptr);
+    g_list_node.assign(sc.nvars, nullptr);
     owner.assign(kN, -1);
     issued.resize(kN);
     my_id.assign(sc.progs.size(), -1);
@@ -216,16 +243,22 @@ struct World {
     } else if (o.name == "unguard") {
       guards.at(o.a) = EpochGuard{};
       lists.at(o.a) = nullptr;
+      g_list_node.at(o.a) = nullptr;
       tok(rk + "0");
     } else if (o.name == "gpe") {
       auto &&[g, l] = mgr->GetProtectedEpochs();
       const auto e = g.GetProtectedEpoch();
       guards.at(o.a) = std::move(g);
       lists.at(o.a) = &l;
+      g_list_node.at(o.a) = node_containing(&l);
       tok(rk + std::to_string(e) + ":" + list_str(l));
     } else if (o.name == "relist") {
       const auto *l = lists.at(o.a);
-      tok(rk + (l ? list_str(*l) : std::string("none")));
+      if (l != nullptr && (g_list_node.at(o.a) == nullptr || !node_live(g_list_node.at(o.a)))) {
+        tok(rk + "freed");  // the node holding the vector is gone: do not touch it
+      } else {
+        tok(rk + (l ? list_str(*l) : std::string("none")));
+      }
     } else if (o.name == "gepoch") {
       tok(rk + std::to_string(guards.at(o.a).GetProtectedEpoch()));
     } else if (o.name == "fwd") {
